@@ -97,7 +97,7 @@ struct Scene {
 
 // ---------------------------------------------------------------- accessors (pass-through, logging out-of-storage accesses)
 struct AccLog {
-  const uint8_t *lo[8], *hi[8];
+  const uint8_t *lo[32], *hi[32];
   int n = 0;
   long calls = 0, bad = 0;
 };
@@ -237,7 +237,7 @@ inline void build_img(const SImg &d, BuiltImg &b, bool is_dest) {
     }
     if (d.accessors) {
       AccLog &l = acclog();
-      if (l.n < 7) {
+      if (l.n < 31) {
         l.lo[l.n] = b.bits->buf.p;
         l.hi[l.n] = b.bits->buf.p + b.bits->buf.size;
         l.n++;
